@@ -13,6 +13,8 @@ mkdir -p "$scratch/repo"
 (cd /repo && git diff HEAD) | (cd "$scratch/repo" && git apply --allow-empty 2>/dev/null || true)
 # later fix: commits shift the context of older patches: fall back to patch(1) with fuzz before giving up
 (cd "$scratch/repo" && git apply "$patch" 2>/dev/null) || (cd "$scratch/repo" && patch -p1 -s -F3 --no-backup-if-mismatch < "$patch" >/dev/null 2>&1) || { echo "PATCH-DOES-NOT-APPLY $patch"; exit 3; }
+# a hunk placed with fuzz may land in the wrong spot: the result must at least compile
+(cd "$scratch/repo" && /venv/bin/python -m py_compile torrentfile/*.py 2>/dev/null) || { echo "PATCH-DOES-NOT-APPLY $patch (fuzzy application does not compile)"; exit 3; }
 cd "$here"
 rc=0
 for id in "$@"; do
